@@ -12,6 +12,10 @@ HOME = os.path.dirname(os.path.dirname(os.path.dirname(os.path.abspath(__file__)
 
 NOT_CLAIMED = {}   # property id -> reason (filled in when a property is deliberately not claimed)
 
+# checks that have been calibrated on the unchanged tree, shown to detect seeded mutations and are
+# silent across seeds; a module that exists but is not listed here is still under construction
+READY = ['C01', 'C04', 'C05']
+
 BASELINE_CMD = ('cd /repo && env -u OPENMDAO_VERIF /venv/bin/python -m pytest -ra -q -p no:cacheprovider '
                 '--timeout=900 --continue-on-collection-errors')
 
@@ -29,7 +33,7 @@ def main():
     for p in props:
         pid = p['id']
         m = mods.get(pid)
-        if m is None or getattr(m, 'DISABLED', False):
+        if m is None or getattr(m, 'DISABLED', False) or pid not in READY:
             na.append({'property_id': pid,
                        'reason': NOT_CLAIMED.get(pid, 'no sound bounded-exhaustive check has been '
                                                  'built for this property yet; not claimed')})
@@ -62,7 +66,7 @@ def main():
         },
         'engines': [
             {'name': 'omv', 'path': 'omv/core',
-             'serves_properties': sorted(mods),
+             'serves_properties': sorted(x for x in mods if x in READY),
              'kind_free_text': 'hand-written explicit enumeration / explicit-state search engines in '
                                'Python driving the real OpenMDAO code from /repo against small '
                                'reference models (see DESIGN.md section 2)'}],
